@@ -10,7 +10,7 @@ use std::task::{Context, Poll};
 use tokio::io::{AsyncRead, AsyncWrite, ReadBuf};
 
 /// Number of payload shapes `make_err` knows.
-pub const ERR_SHAPES: u8 = 8;
+pub const ERR_SHAPES: u8 = 10;
 
 #[derive(Debug)]
 struct ChainedCause(io::Error);
@@ -72,6 +72,10 @@ pub fn make_err(kind: io::ErrorKind, shape: u8) -> io::Error {
         // codec's own error values as payload; it is still a transport failure of kind `kind`
         6 => io::Error::new(kind, if kind == K::InvalidData { mqtt_proto::Error::ZeroPid } else { mqtt_proto::Error::InvalidHeader }),
         7 => io::Error::new(kind, mqtt_proto::v5::ErrorV5::Common(mqtt_proto::Error::InvalidRemainingLength)),
+        // 8, 9: the text of the error looks like that of an operating-system error of *another* kind: a nested OS error
+        // (an adapter that wraps the errno it got and assigns its own kind), and a message that quotes one
+        8 => io::Error::new(kind, io::Error::from_raw_os_error(if kind == K::NotFound { libc::ECONNRESET } else { libc::ENOENT })),
+        9 => io::Error::new(kind, if kind == K::PermissionDenied { "upstream said: Connection reset by peer (os error 104)" } else { "upstream said: Permission denied (os error 13)" }),
         _ => io::Error::new(kind, "injected"),
     };
     debug_assert_eq!(e.kind(), kind);
